@@ -123,6 +123,10 @@ class PyFunc:
         self.node = node
         self.mi = mi
         self.cls_qual = cls_qual
+        self.defaults = None
+        self.kw_defaults = None
+        self.def_env = None
+        self.def_outer = None
 
 
 class BoundMethod:
@@ -267,7 +271,17 @@ class Grammar:
                 if isinstance(v, GNode) and (v.label is None or lo <= v.src[1] <= hi):
                     v.label = f"{qual}.{k}"
         elif isinstance(st, (ast.FunctionDef, ast.AsyncFunctionDef)):
-            env[st.name] = PyFunc(st, mi, cls_qual)
+            pf = PyFunc(st, mi, cls_qual)
+            # default values are evaluated when the def statement runs, in the defining scope
+            try:
+                pf.defaults = [self.eval(d, env, outer_env, mi, cls_qual) for d in st.args.defaults]
+                pf.kw_defaults = [self.eval(d, env, outer_env, mi, cls_qual) if d is not None else None
+                                  for d in st.args.kw_defaults]
+            except AnalysisError:
+                pf.defaults, pf.kw_defaults = None, None
+            pf.def_env = env
+            pf.def_outer = outer_env
+            env[st.name] = pf
         elif isinstance(st, ast.Expr):
             if isinstance(st.value, ast.Constant):
                 return
@@ -532,7 +546,7 @@ class Grammar:
             if args and isinstance(args[0], (list, tuple)):
                 return list(args[0]) if f.why.endswith("list") else tuple(args[0])
             return Opaque("list")
-        if isinstance(f, PyFunc) and f.cls_qual is None and self.returns_grammar(f):
+        if isinstance(f, PyFunc) and self.returns_grammar(f):
             return self.call_pyfunc(f, args, kw, e, mi)
         if isinstance(f, (ClassNS, PyFunc, Opaque)):
             if contains_gnode(args) or contains_gnode(list(kw.values())):
@@ -545,8 +559,10 @@ class Grammar:
     def returns_grammar(self, pf: PyFunc) -> bool:
         """Does the helper mention pyparsing constructs / grammar values at all?"""
         env = self.envs.get(pf.mi.name, {})
+        denv = getattr(pf, "def_env", None) or {}
         for n in ast.walk(pf.node):
-            if isinstance(n, ast.Name) and isinstance(env.get(n.id), (PP, GNode, PPModule)):
+            if isinstance(n, ast.Name) and (isinstance(env.get(n.id), (PP, GNode, PPModule))
+                                            or isinstance(denv.get(n.id), (PP, GNode, PPModule))):
                 return True
         return False
 
@@ -559,8 +575,13 @@ class Grammar:
         a = fn.args
         env = dict()
         outer = self.envs.get(pf.mi.name, {})
+        if pf.cls_qual is not None:
+            # a helper defined in a class body sees module globals only (not the class scope)
+            outer = getattr(pf, "def_outer", None) or outer
         pos = [x.arg for x in a.posonlyargs + a.args]
         defaults = list(a.defaults)
+        dvals = getattr(pf, "defaults", None)
+        kdvals = getattr(pf, "kw_defaults", None)
         for i, name in enumerate(pos):
             if i < len(args):
                 env[name] = args[i]
@@ -570,16 +591,16 @@ class Grammar:
                 di = i - (len(pos) - len(defaults))
                 if di < 0:
                     raise AnalysisError(f"{mi.rel}:{call.lineno}: missing argument {name} for {fn.name}()")
-                env[name] = self.eval(defaults[di], {}, outer, pf.mi, None)
+                env[name] = dvals[di] if dvals is not None else self.eval(defaults[di], {}, outer, pf.mi, None)
         if a.vararg:
             env[a.vararg.arg] = tuple(args[len(pos):])
         elif len(args) > len(pos):
             raise AnalysisError(f"{mi.rel}:{call.lineno}: too many arguments for {fn.name}()")
-        for k, d in zip(a.kwonlyargs, a.kw_defaults):
+        for i, (k, d) in enumerate(zip(a.kwonlyargs, a.kw_defaults)):
             if k.arg in kw:
                 env[k.arg] = kw[k.arg]
             elif d is not None:
-                env[k.arg] = self.eval(d, {}, outer, pf.mi, None)
+                env[k.arg] = kdvals[i] if kdvals is not None else self.eval(d, {}, outer, pf.mi, None)
         depth = getattr(self, "_call_depth", 0)
         if depth > 8:
             raise AnalysisError(f"{mi.rel}:{call.lineno}: helper recursion too deep in {fn.name}()")
